@@ -165,8 +165,17 @@ def run(ctx):
         r1.fail(f.qualname, "owned-rows", f.file, f.lineno, "Calc_Energy", "the quadratic form is not restricted to the owned rows on both the vector and the operator, or is not reduced over ranks: the ghost layer would be counted once per rank")
     f = simu.methods["Calc_Reaction"]
     r1.instance(fn=f.qualname)
-    prods = [n for n in ast.walk(f.node) if isinstance(n, ast.BinOp) and isinstance(n.op, ast.MatMult) and isinstance(n.left, ast.Subscript)]
-    idxs = {norm_text(p.left.slice) for p in prods}
+    mats = set()
+    for n in ast.walk(f.node):
+        if isinstance(n, ast.Assign) and isinstance(n.targets[0], ast.Tuple) and isinstance(n.value, ast.Call) and (dotted(n.value.func) or "").endswith("Get_K_C_M_F"):
+            mats = {e.id for e in n.targets[0].elts if isinstance(e, ast.Name) and e.id != "_"}
+    prods = []
+    for n in ast.walk(f.node):
+        if isinstance(n, ast.BinOp) and isinstance(n.op, ast.MatMult):
+            base = n.left.value if isinstance(n.left, ast.Subscript) else n.left
+            if isinstance(base, ast.Name) and base.id in mats:
+                prods.append(n)
+    idxs = {norm_text(p.left.slice) if isinstance(p.left, ast.Subscript) else "<all rows>" for p in prods}
     filt = any(isinstance(n, ast.Assign) and "np.isin" in norm_text(n.value) and "ownedDofs" in norm_text(n.value) for n in ast.walk(f.node)) and any(isinstance(n, ast.Assign) and norm_text(n.value) == "ownedDofs" for n in ast.walk(f.node))
     red = any(isinstance(n, ast.Return) and "Reduce_sum" in norm_text(n.value) for n in ast.walk(f.node) if isinstance(n, ast.Return) and n.value is not None)
     if len(prods) >= 3 and idxs == {"dofs"} and filt and red:
@@ -203,6 +212,15 @@ def run(ctx):
                     unknown.append(f"{f.qualname}: {norm_text(n.args[0])}")
     if unknown:
         r2.note(f"provenance not established (neither proven sorted nor known unsorted): {unknown}")
+
+    r2b = ctx.rule("R20.2b", "the partition arrays are stored sorted by _Set_partitioned_data (every consumer pairs them with connect through searchsorted)", min_instances=1)
+    fsetp = repo.cls(GE).methods["_Set_partitioned_data"]
+    r2b.instance(fn=fsetp.qualname)
+    _PD.clear()
+    if partition_data_sorted(repo) == "sorted":
+        r2b.ok("elements, ghostElements, nodes, ghostNodes are np.sort(...) before being stored")
+    else:
+        r2b.fail(fsetp.qualname, "stored-sorted", fsetp.file, fsetp.lineno, "_Set_partitioned_data", "one of the partition index arrays is stored without being sorted: Mesher builds them from python sets (hash order) and searchsorted against them returns wrong rows silently")
 
     r3 = ctx.rule("R20.3", "ghost-layer shape: ghosts = elements of all other ranks touching an owned node; group connectivity = unique(owned + ghost); partition data handed over in (elements, nodes, rank, ghostElements) order", min_instances=3)
     mesher = repo.cls(MESHER)
